@@ -130,6 +130,8 @@ func runC02(c *Ctx) {
 	c.Rule("R2.4", 3, "regexToDFA: Parse -> ToDFA -> language-preserving steps, error returned")
 	c.Rule("R2.5", 20, "the combinator grammar equals the documented pattern grammar rule by rule")
 	checkRegexGrammarDocs(c, "R2.5")
+	c.Rule("R2.7", 4, "a direct alternative of an ordered choice fails only by shape (= R9.7)")
+	checkAlternativesFailByShape(c, "R2.7")
 	c.Rule("R2.6", 1, "a character group is a set: listing a character twice is listing it once")
 	checkMembershipIdempotent(c, "R2.6", "internal/regex/parser/nfa", "internal/regex/parser/ast")
 
